@@ -89,6 +89,35 @@ def witness_c05(v, tier):
     return {'found': False, 'tried': tried}
 
 
+def witness_u6(v, tier):
+    out, err = _replay(['u6', 'find', '4' if tier == 'thorough' else '3'])
+    if out and out.get('found'):
+        w = out['witness']
+        return {'found': True, 'witness': w, 'real': out['real'], 'tried': out['tried'],
+                'replay_args': ['u6', 'replay', json.dumps(w)]}
+    return {'found': False, 'tried': (out or {}).get('tried'), 'note': err}
+
+
+def extra_c10_bounded(prop, tier, seed):
+    """Bounded, informational: completeness of the matching search (returns false only when no perfect
+    matching exists) is NOT proved; it is compared with brute force on every matrix up to n x n."""
+    n = '4' if tier == 'thorough' else '3'
+    out, err = _replay(['u6', 'find', n])
+    if out is None:
+        raise engine.Undecided('replay-failed', err)
+    res = {'violations': [], 'bounded': [{'check': 'driver sequence on every compatibility matrix up to %sx%s: contract clauses after each '
+                                                   'call and completeness against brute force' % (n, n), 'bound': '%s claims x %s pairs' % (n, n),
+                                          'matrices': out.get('tried'), 'found': out.get('found')}]}
+    if out.get('found'):
+        res['violations'].append({
+            'unit': 'U6', 'label': 'augment:bounded-driver-check', 'fn': 'augment_single_entry_assignment',
+            'message': 'the real augmenting step breaks the matching (or misses one) on a small compatibility matrix',
+            'clause': [], 'engine': 'replay', 'verifier_output': json.dumps(out),
+            'fixed_witness': {'found': True, 'witness': out['witness'], 'real': out.get('real'),
+                              'replay_args': ['u6', 'replay', json.dumps(out['witness'])]}})
+    return res
+
+
 def witness_u2(v, tier):
     out, err = _replay(['u2', 'find'])
     if out and out.get('found'):
@@ -237,6 +266,17 @@ def extra_c20(prop, tier, seed):
 
 
 PROPS = {
+    'C10': {
+        'vx': ['U6'],
+        'extra': [extra_c10_bounded],
+        'witness': witness_u6,
+        'technique': 'Verus contract (requires/ensures/decreases, loop invariant, proof hints) on the real Kuhn augmenting step + lemma for its caller',
+        'level_text': 'Duplicate-key clause of C10 only ("each physical key/value pair must be accounted for by some member" - no pair is handed to two members, no member gets two pairs): Verus proves for the real augment_single_entry_assignment, for every compatibility matrix and every search state, that owners are compatible claims, pairs already visited keep their owner, failure leaves the assignment unchanged, success gives the searching claim exactly one new unvisited pair, no other claim ever owns two pairs, no claim appears from nowhere, matched claims stay matched; termination (decreasing count of unvisited pairs); index safety. A lemma derives for the calling loop that the assignment stays an injective matching. Completeness of the search (false => no perfect matching) is only cross-checked against brute force on small matrices (bounded, not counted). Order-independence of the verdict is not decided.',
+        'level_note': 'Trusted: Verus+Z3, vstd slice/Vec specs. Extraction rewrites: R2 (Option::is_none_or closure inlined to match), R6 (Self:: dropped, associated fn lifted), R9 (for-range with continue desugared to while with the increment first). Unverified: try_reassign_failed_single_entries (builds the matrix by running the validator and commits the assignment), the ledger bookkeeping on the validator struct, JSON side (serde_json map has no duplicate keys).',
+        'design_ref': 'DESIGN.md 4 U6',
+        'scope': 'CBORValidator::augment_single_entry_assignment',
+        'assumptions': ['the caller starts each search with an all-false visited vector and a rectangular matrix (read off the code, not verified)'],
+    },
     'C09': {
         'vx': ['U5'],
         'technique': 'Verus postconditions on mechanically extracted fragments (R7) of the real array matchers over the real cddl::ast::Occur + identity lemma',
@@ -338,7 +378,6 @@ PROPS = {
 
 # properties whose check is not built yet (kept in MANIFEST.not_applicable until it is)
 PENDING = {
-    'C10': 'check not built yet: planned claim-ledger/matching contracts (unit U6)',
     'C12': 'check not built yet: stretch unit U4',
     'C14': 'check not built yet: stretch unit U8',
 }
